@@ -189,6 +189,18 @@ impl OligoCgrComputer {
     }
 }
 
+/// Public routes to the private routines for the verification harness.
+#[cfg(kmertools_verif)]
+impl OligoCgrComputer {
+    pub fn verif_set_max_memory(&mut self, memory: usize) {
+        self.memory = memory;
+    }
+
+    pub fn verif_vectorise_one(&self, seq: &[u8]) -> Result<Vec<(Point, f64)>, String> {
+        self.vectorise_one(seq)
+    }
+}
+
 #[cfg(test)]
 mod tests {
     use super::*;
